@@ -381,6 +381,28 @@ func runC09(r *Run) {
 			o, _ := unmarshalOut(full)
 			r.emit("md.unm "+hx(full), o, true)
 			r.count("unm.full")
+			// large blocks: truncations at and around every field boundary (long strings have two-byte prefixes)
+			seen := map[int]bool{}
+			for _, c0 := range append(append([]int{}, cuts...), len(full)-1, len(full)-2, len(full)-3) {
+				for _, c := range []int{c0 - 1, c0, c0 + 1} {
+					if c <= 0 || c >= len(full) || seen[c] {
+						continue
+					}
+					seen[c] = true
+					o, _ := unmarshalOut(full[:c])
+					if len(full) <= 2048 { // larger ones: reference decoder only (keeps the case file small)
+						r.emit("md.unm "+hx(full[:c]), o, true)
+					}
+					r.count("unm.trunc-large")
+					if strings.HasPrefix(o, "PANIC") {
+						r.violate(Violation{What: "UnmarshalValues panicked on a truncated block", Case: fmt.Sprintf("block of %d bytes cut at %d", len(full), c)})
+					}
+					_, refOK := refUnmarshal(full[:c])
+					if refOK != strings.HasPrefix(o, "OK") {
+						r.violate(Violation{What: "decoder verdict differs from the reference on a truncated block", Case: fmt.Sprintf("block of %d bytes cut at %d", len(full), c), Impl: o})
+					}
+				}
+			}
 		}
 		// Set / Get
 		k := g.asciiStr(g.mdLen(true))
